@@ -98,9 +98,14 @@ type services struct {
 	rest               *gossip.RestSnapshotStore
 	notifier           *gossip.SimpleNotifier
 	seq                int
+	alertDelay         time.Duration
 }
 
-func newServices() *services {
+func newServices() *services { return newServicesWith(100, 0) }
+
+// newServicesWith: queue = the notifier's queue size (the product's default is 10),
+// alertDelay = how long the alerts service takes to answer one POST.
+func newServicesWith(queue int, alertDelay time.Duration) *services {
 	sv := &services{store: &memStore{snaps: map[uint64]*protocol.SignedSnapshot{}}}
 	mux := http.NewServeMux()
 	mux.HandleFunc("/snapshot", func(w http.ResponseWriter, r *http.Request) {
@@ -129,14 +134,16 @@ func newServices() *services {
 	sv.storeSrv = httptest.NewServer(mux)
 	sv.alertSrv = httptest.NewServer(http.HandlerFunc(func(w http.ResponseWriter, r *http.Request) {
 		body, _ := io.ReadAll(r.Body)
+		time.Sleep(alertDelay)
 		sv.mu.Lock()
 		sv.alerts = append(sv.alerts, string(body))
 		sv.mu.Unlock()
 	}))
 	// generous timeouts: a time-out under load would look like a missing alert
 	sv.rest = gossip.NewRestSnapshotStore([]string{sv.storeSrv.URL}, 20*time.Second, 20*time.Second)
-	sv.notifier = gossip.NewSimpleNotifier([]string{sv.alertSrv.URL + "/alert"}, 100, 20*time.Second, 20*time.Second, nil)
+	sv.notifier = gossip.NewSimpleNotifier([]string{sv.alertSrv.URL + "/alert"}, queue, 20*time.Second, 20*time.Second, nil)
 	sv.notifier.Start()
+	sv.alertDelay = alertDelay
 	return sv
 }
 
@@ -150,6 +157,17 @@ func (sv *services) close() {
 // The notifier posts its queue in order, so a sentinel pushed through the
 // same queue marks the point where everything before it has arrived.
 func (sv *services) settle() ([]string, error) {
+	// first let the queue drain: the sentinel itself must not meet a full queue
+	last, since := -1, time.Now()
+	for time.Since(since) < 600*time.Millisecond+3*sv.alertDelay {
+		sv.mu.Lock()
+		n := len(sv.alerts)
+		sv.mu.Unlock()
+		if n != last {
+			last, since = n, time.Now()
+		}
+		time.Sleep(5 * time.Millisecond)
+	}
 	sv.seq++
 	mark := fmt.Sprintf("harness-sentinel-%d", sv.seq)
 	sv.notifier.Alert(mark)
